@@ -225,15 +225,13 @@ func (w *bsWorld) runOp(rec *bsRec) {
 	case "get":
 		rec.Got, rec.OK = s.Get(rec.Op.K)
 	case "lget":
-		n0 := len(w.loads)
+		// (rec.Loads / rec.LoadEnd are filled in by the B step: the loader runs in the map phase, while this client is the
+		// only thread running. Counting w.loads here, when the call RETURNS, attributed another client's load to this call
+		// whenever the two calls overlapped - a false alarm of the C06 reference deadline, see DESIGN.md §10.4.)
 		v, err := w.h.ls.Get(nil, rec.Op.K)
 		rec.Got, rec.OK = v, err == nil
 		if err != nil {
 			rec.Err = err.Error()
-		}
-		rec.Loads = len(w.loads) - n0
-		if rec.Loads > 0 {
-			rec.LoadEnd = w.loads[len(w.loads)-1].End
 		}
 	case "wait":
 		s.Wait()
@@ -305,6 +303,9 @@ func (w *bsWorld) apply(a string) bool {
 		})
 		st := vrt.StepThread(cl.t, bsAtWriteSend)
 		w.step++
+		if rec.Loads = len(w.loads) - loads0; rec.Loads > 0 {
+			rec.LoadEnd = w.loads[len(w.loads)-1].End
+		}
 		if w.hy != nil {
 			w.hyAfterMap(rec)
 		}
